@@ -829,4 +829,161 @@ def valuerIntsOk {F : Type} (V : Valuer F) : Prop :=
   (∀ key v, V.value key = some v → int64Ok v) ∧
   (∀ f, V.call = some f → ∀ name args v, f name args = some v → int64Ok v)
 
+/-! ## `matchExactRegex`, `matchRegex` on the tree `syntax.Parse(v, syntax.Perl).Simplify()` returns
+
+`re.Sub[0]` followed by `re.Sub[1:]` is the pattern match `r :: rest`, whose `[]` branch is the
+index panic (a recursive call on `idx … 0` would not be structural). -/
+
+def sMRSub0 : Site := ("matchRegex", "index", "re.Sub[0]")
+def sMRSubTail : Site := ("matchRegex", "slice", "re.Sub[1:]")
+def sMRNames0 : Site := ("matchRegex", "index", "names[0]")
+def sMRVals0 : Site := ("matchRegex", "index", "vals[0]")
+def sMRConcat : Site := ("matchRegex", "index", "concat[i*len(vals)+j]")
+def sMRRuneI : Site := ("matchRegex", "index", "re.Rune[i]")
+def sMRRuneI1 : Site := ("matchRegex", "index", "re.Rune[i+1]")
+def sMESub0 : Site := ("matchExactRegex", "index", "re.Sub[0]")
+def sMESubLast : Site := ("matchExactRegex", "index", "re.Sub[len(re.Sub)-1]")
+def sMESubMid : Site := ("matchExactRegex", "slice", "re.Sub[1 : len(re.Sub)-1]")
+
+/-- `for i := range names { names[i] += vals[0] }`. -/
+def appendLoop (vals : List Str) : List Str → OpRes (List Str)
+  | [] => .ok []
+  | n :: rest => do
+    let v ← idx sMRVals0 vals 0
+    let rest' ← appendLoop vals rest
+    pure ((n ++ v) :: rest')
+
+/-- `for i := range vals { vals[i] = names[0] + vals[i] }`. -/
+def prependLoop (names : List Str) : List Str → OpRes (List Str)
+  | [] => .ok []
+  | v :: rest => do
+    let n ← idx sMRNames0 names 0
+    let rest' ← prependLoop names rest
+    pure ((n ++ v) :: rest')
+
+/-- `for j := range vals { concat[i*len(vals)+j] = names[i] + vals[j] }`. -/
+def cartInner (lv : Int) (n : Str) (i : Int) : List Str → Int → List Str → OpRes (List Str)
+  | [], _, out => .ok out
+  | v :: rest, j, out => do
+    let out' ← setIdx sMRConcat out (i * lv + j) (n ++ v)
+    cartInner lv n i rest (j + 1) out'
+
+/-- `for i := range names { … }`. -/
+def cartOuter (vals : List Str) : List Str → Int → List Str → OpRes (List Str)
+  | [], _, out => .ok out
+  | n :: rest, i, out => do
+    let out' ← cartInner vals.length n i vals 0 out
+    cartOuter vals rest (i + 1) out'
+
+/-- One round of the concatenation loop of the `OpConcat` case. -/
+def concatStep (names vals : List Str) : OpRes (Option (List Str)) :=
+  if vals.length = 1 then do
+    let r ← appendLoop vals names
+    pure (some r)
+  else if names.length = 1 then do
+    let r ← prependLoop names vals
+    pure (some r)
+  else if names.length * vals.length > maxLiterals then .ok none
+  else do
+    let out ← cartOuter vals names 0 (List.replicate (names.length * vals.length) [])
+    pure (some out)
+
+/-- `for i := 0; i < len(re.Rune); i += 2 { sz += int(re.Rune[i+1]) - int(re.Rune[i]) + 1 }`. -/
+def classSizeLoop (rune : List Nat) : Nat → Int → Int → OpRes Int
+  | 0, _, _ => .err "matchRegex: out of fuel".toList
+  | fuel + 1, i, sz =>
+    if i < rune.length then do
+      let hi ← idx sMRRuneI1 rune (i + 1)
+      let lo ← idx sMRRuneI rune i
+      classSizeLoop rune fuel (i + 2) (sz + ((hi : Int) - (lo : Int) + 1))
+    else .ok sz
+
+/-- `for i := 0; i < len(re.Rune); i += 2 { for r := int(re.Rune[i]); r <= int(re.Rune[i+1]); r++ { … } }`. -/
+def classEnumLoop (rune : List Nat) : Nat → Int → List Str → OpRes (Option (List Str))
+  | 0, _, _ => .err "matchRegex: out of fuel".toList
+  | fuel + 1, i, names =>
+    if i < rune.length then do
+      let lo ← idx sMRRuneI rune i
+      let hi ← idx sMRRuneI1 rune (i + 1)
+      match Rx.rangeStrs lo (hi + 1 - lo) with
+      | none => pure none
+      | some a => classEnumLoop rune fuel (i + 2) (names ++ a)
+    else .ok (some names)
+
+/-- The `OpCharClass` case. -/
+def matchClass (rune : List Nat) : OpRes (Option (List Str)) := do
+  let sz ← classSizeLoop rune (rune.length + 1) 0 0
+  if sz > (maxLiterals : Int) ∨ sz = 0 then pure none
+  else classEnumLoop rune (rune.length + 1) 0 []
+
+mutual
+  /-- `matchRegex`: `some L` = `(L, true)`, `none` = `(nil, false)`. -/
+  def matchRegex : Rx.Regex → OpRes (Option (List Str))
+    | .mk op flags rune sub =>
+      if Rx.hasFold flags then .ok none else
+      match op with
+      | .literal => .ok (if rune.all Rx.isEncodableRune then some [Rx.runesToStr rune] else none)
+      | .capture => matchSub0 sub
+      | .concat => matchConcat sub
+      | .charClass => matchClass rune
+      | .alternate => do
+        let r ← matchAlt sub
+        match r with
+        | none => pure none
+        | some names => pure (if names.length > maxLiterals then none else some names)
+      | _ => .ok none
+  /-- `matchRegex(re.Sub[0])`. -/
+  def matchSub0 : List Rx.Regex → OpRes (Option (List Str))
+    | [] => goPanic sMRSub0
+    | r :: _ => matchRegex r
+  /-- The `OpConcat` case. -/
+  def matchConcat : List Rx.Regex → OpRes (Option (List Str))
+    | [] => goPanic sMRSub0
+    | r :: rest => do
+      let r0 ← matchRegex r
+      match r0 with
+      | none => pure none
+      | some names => concatLoop names rest
+  /-- `for _, sub := range re.Sub[1:] { … }`. -/
+  def concatLoop (names : List Str) : List Rx.Regex → OpRes (Option (List Str))
+    | [] => .ok (some names)
+    | r :: rest => do
+      let rv ← matchRegex r
+      match rv with
+      | none => pure none
+      | some vals => do
+        let step ← concatStep names vals
+        match step with
+        | none => pure none
+        | some names' => concatLoop names' rest
+  /-- The loop of the `OpAlternate` case. -/
+  def matchAlt : List Rx.Regex → OpRes (Option (List Str))
+    | [] => .ok (some [])
+    | r :: rest => do
+      let rv ← matchRegex r
+      match rv with
+      | none => pure none
+      | some vals => do
+        let rr ← matchAlt rest
+        match rr with
+        | none => pure none
+        | some more => pure (some (vals ++ more))
+end
+
+/-- `matchExactRegex` after `syntax.Parse` succeeded and `Simplify()` ran. -/
+def matchExactTree : Rx.Regex → OpRes (Option (List Str))
+  | .mk op flags rune sub =>
+    if op ≠ .concat then .ok none
+    else if sub.length < 2 then .ok none
+    else do
+      let start ← idx sMESub0 sub 0
+      if start.op ≠ .beginText then pure none
+      else do
+        let end_ ← idx sMESubLast sub ((sub.length : Int) - 1)
+        if end_.op ≠ .endText then pure none
+        else do
+          let inner ← slice sMESubMid sub 1 ((sub.length : Int) - 1)
+          if inner.length = 0 then pure (some [])
+          else matchRegex (.mk op flags rune inner)
+
 end InfluxQL.Checked
